@@ -21,7 +21,7 @@ import (
 func init() {
 	h.Register(&h.Prop{
 		ID:   "C05",
-		Rule: "adv: n in 3..5, one Byzantine member; fault catalogue (bad share, equivocating commitments with and without cross-wired session ids, T in {0,1,n+1,2^32-1} bound/unbound, wrong index, other-length commitments, missing share/value, raw session id, junk / missing / redirected / previous-session deal, slot pre-emption under an honest or out-of-range index; response with bad / missing / foreign signature, foreign or previous session id, complaint about an honest dealer or about the recipient's own deal, relabelled or previous-session genuine response, missing response, out-of-range responder) injected at every position of the honest delivery sequence (all in thorough and for n=3,4 in quick; sampled for n=5 in quick), pairs of faults in thorough; non-trivial = every case (each has at least one adversarial message); distinct = distinct case line",
+		Rule: "adv: n in 3..5, one Byzantine member; fault catalogue (bad share, equivocating commitments with and without cross-wired session ids, T in {0,1,n+1,2^32-1} bound/unbound, self-consistent deals of threshold 0,1,2,n+1,2n (exactly T commitments, fitting share and session id), wrong index, other-length commitments, missing share/value, raw session id, junk / missing / redirected / previous-session deal, slot pre-emption under an honest or out-of-range index; response with bad / missing / foreign signature, foreign or previous session id, complaint about an honest dealer or about the recipient's own deal, relabelled or previous-session genuine response, missing response, out-of-range responder) injected at every position of the honest delivery sequence (all in thorough and for n=3,4 in quick; sampled for n=5 in quick), pairs of faults in thorough; non-trivial = every case (each has at least one adversarial message); distinct = distinct case line",
 		Gen:  gen,
 		Exec: exec,
 	})
@@ -94,7 +94,7 @@ func dealFaults() []fault {
 			if j != b {
 				return nil, false, false
 			}
-			v := strings.ReplaceAll(variant, "N1", fmt.Sprint(n+1))
+			v := strings.ReplaceAll(strings.ReplaceAll(variant, "N1", fmt.Sprint(n+1)), "NN", fmt.Sprint(2*n))
 			return []string{fmt.Sprintf("D.%d.%d.%d.%s", b, b, i, v)}, true, true
 		}}
 	}
@@ -108,7 +108,7 @@ func dealFaults() []fault {
 	}
 	fs := []fault{
 		own("bad1"), own("good2"), own("xw2_3"), own("T0p1"), own("T1p1"), own("TN1p1"), own("T4294967295p1"),
-		own("Tx0p1"), own("Tx1p1"), own("TxN1p1"), own("idx0p1"), own("idx1p1"), own("idx-1p1"), own("clen1p1"),
+		own("Tx0p1"), own("Tx1p1"), own("TxN1p1"), own("Tc0p6"), own("Tc1p6"), own("Tc2p6"), own("TcN1p6"), own("TcNNp6"), own("idx0p1"), own("idx1p1"), own("idx-1p1"), own("clen1p1"),
 		own("clenN1p1"), own("nilshare"), own("nilv"), own("sidraw"), own("junk"), own("nil"),
 		{name: "d-prev", deal: func(n, b, j, i int) ([]string, bool, bool) {
 			if j != b {
@@ -310,7 +310,7 @@ func gen(tier string, rng *h.Rng, emit func(string)) {
 					p := strings.Split(e[1:], ".")
 					j, i := h.Atoi(p[0]), h.Atoi(p[1])
 					if j == b && i != b {
-						v := strings.ReplaceAll(variant(i), "N1", fmt.Sprint(n+1))
+						v := strings.ReplaceAll(strings.ReplaceAll(variant(i), "N1", fmt.Sprint(n+1)), "NN", fmt.Sprint(2*n))
 						injs = append(injs, injection{q, []string{fmt.Sprintf("D.%d.%d.%d.%s", b, b, i, v)}, true, i})
 					}
 				}
@@ -335,6 +335,8 @@ func gen(tier string, rng *h.Rng, emit func(string)) {
 				return "good21"
 			})
 			multi(func(i int) string { return "bad7" })
+			multi(func(i int) string { return "Tc1p9" })  // threshold 1, self-consistent, to everybody: the share IS the secret
+			multi(func(i int) string { return "TcN1p9" }) // threshold n+1, self-consistent, to everybody
 			multi(func(i int) string { return "clenN1p8" })
 			// previous-session replay of b's whole dealing together with the honest members' old approvals
 			{
